@@ -106,6 +106,7 @@ func (x *Exec) loadSpecs(extDir string) error {
 
 func (x *Exec) registerSpec(sf *SpecFile) {
 	for _, c := range sf.Contracts {
+		c.SF = sf
 		key := contractKey(c.Target, sf.Pkg)
 		key = x.expandAlias(key, sf)
 		if c.When != nil {
@@ -127,6 +128,7 @@ func (x *Exec) registerSpec(sf *SpecFile) {
 		x.immutableFields[sf.Pkg+"."+im] = true
 	}
 	for _, g := range sf.Ghosts {
+		g.SF = sf
 		x.ghosts[sf.Pkg+"::"+g.Name] = g
 		if _, ok := x.ghosts["::"+g.Name]; !ok {
 			x.ghosts["::"+g.Name] = g
